@@ -14,7 +14,6 @@ from collections import defaultdict
 from copy import deepcopy
 
 from contextlib import ExitStack
-from pathlib import Path
 from typing import (
     Optional,
     List,
@@ -449,6 +448,17 @@ def run_whatshap(
                     "read list file contains no information about this"
                 )
 
+        # The lists of changed genotypes and of recombination events are opened once for the
+        # whole run so that they contain the entries of all chromosomes and families
+        gtchange_list_file = None
+        if gtchange_list_filename:
+            gtchange_list_file = stack.enter_context(open(gtchange_list_filename, "w"))
+            write_changed_genotypes_header(gtchange_list_file)
+        recombination_list_file = None
+        if recombination_list_filename:
+            recombination_list_file = stack.enter_context(open(recombination_list_filename, "w"))
+            write_recombination_list_header(recombination_list_file)
+
         with timers("parse_phasing_vcfs"):
             # TODO should this be done in PhasedInputReader.__init__?
             phased_input_reader.read_vcfs()
@@ -615,10 +625,10 @@ def run_whatshap(
                     )
                     log_component_stats(overall_components, len(accessible_positions))
 
-                if recombination_list_filename:
+                if recombination_list_file:
                     assert transmission_vector is not None
                     n_recombinations = write_recombination_list(
-                        recombination_list_filename,
+                        recombination_list_file,
                         chromosome,
                         accessible_positions,
                         overall_components,
@@ -655,9 +665,9 @@ def run_whatshap(
                     assert distrust_genotypes
                     logger.info("Changed %d genotypes while writing VCF", len(changed_genotypes))
 
-            if gtchange_list_filename:
+            if gtchange_list_file:
                 logger.info("Writing list of changed genotypes to %r", gtchange_list_filename)
-                write_changed_genotypes(gtchange_list_filename, changed_genotypes)
+                write_changed_genotypes(gtchange_list_file, changed_genotypes)
 
             logger.debug("Chromosome %r finished", chromosome)
 
@@ -951,27 +961,42 @@ def find_mendelian_conflicts(trios: Sequence[Trio], variant_table: VariantTable)
     return mendelian_conflicts
 
 
-def write_changed_genotypes(gtchange_list_filename, changed_genotypes):
-    with open(gtchange_list_filename, "w") as f:
+def write_changed_genotypes_header(f: TextIO) -> None:
+    print("#sample", "chromosome", "position", "REF", "ALT", "old_gt", "new_gt", sep="\t", file=f)
+
+
+def write_changed_genotypes(f: TextIO, changed_genotypes) -> None:
+    for changed_genotype in changed_genotypes:
         print(
-            "#sample", "chromosome", "position", "REF", "ALT", "old_gt", "new_gt", sep="\t", file=f
+            changed_genotype.sample,
+            changed_genotype.chromosome,
+            changed_genotype.variant.position,
+            changed_genotype.variant.reference_allele,
+            changed_genotype.variant.alternative_allele,
+            repr(changed_genotype.old_gt),
+            repr(changed_genotype.new_gt),
+            sep="\t",
+            file=f,
         )
-        for changed_genotype in changed_genotypes:
-            print(
-                changed_genotype.sample,
-                changed_genotype.chromosome,
-                changed_genotype.variant.position,
-                changed_genotype.variant.reference_allele,
-                changed_genotype.variant.alternative_allele,
-                repr(changed_genotype.old_gt),
-                repr(changed_genotype.new_gt),
-                sep="\t",
-                file=f,
-            )
+
+
+def write_recombination_list_header(f: TextIO) -> None:
+    print(
+        "#child_id",
+        "chromosome",
+        "position1",
+        "position2",
+        "transmitted_hap_father1",
+        "transmitted_hap_father2",
+        "transmitted_hap_mother1",
+        "transmitted_hap_mother2",
+        "recombination_cost",
+        file=f,
+    )
 
 
 def write_recombination_list(
-    path: Union[str, Path],
+    f: TextIO,
     chromosome: str,
     accessible_positions: Sequence[int],
     overall_components: Mapping[int, int],
@@ -987,41 +1012,28 @@ def write_recombination_list(
             value = transmission_vector_value % 4
             transmission_vector_value = transmission_vector_value // 4
             transmission_vector_trio[trio.child].append(value)
-    with open(path, "w") as f:
-        n = 0
-        print(
-            "#child_id",
-            "chromosome",
-            "position1",
-            "position2",
-            "transmitted_hap_father1",
-            "transmitted_hap_father2",
-            "transmitted_hap_mother1",
-            "transmitted_hap_mother2",
-            "recombination_cost",
-            file=f,
+    n = 0
+    for trio in trios:
+        recombination_events = find_recombination(
+            transmission_vector_trio[trio.child],
+            overall_components,
+            accessible_positions,
+            recombination_costs,
         )
-        for trio in trios:
-            recombination_events = find_recombination(
-                transmission_vector_trio[trio.child],
-                overall_components,
-                accessible_positions,
-                recombination_costs,
+        for e in recombination_events:
+            print(
+                trio.child,
+                chromosome,
+                e.position1 + 1,
+                e.position2 + 1,
+                e.transmitted_hap_father1,
+                e.transmitted_hap_father2,
+                e.transmitted_hap_mother1,
+                e.transmitted_hap_mother2,
+                e.recombination_cost,
+                file=f,
             )
-            for e in recombination_events:
-                print(
-                    trio.child,
-                    chromosome,
-                    e.position1 + 1,
-                    e.position2 + 1,
-                    e.transmitted_hap_father1,
-                    e.transmitted_hap_father2,
-                    e.transmitted_hap_mother1,
-                    e.transmitted_hap_mother2,
-                    e.recombination_cost,
-                    file=f,
-                )
-            n += len(recombination_events)
+        n += len(recombination_events)
     return n
 
 
